@@ -48,6 +48,8 @@ type KnownFinding struct {
 	Region     string `json:"region"`     // SMT-LIB predicate over model symbols (optional)
 	What       string `json:"what"`
 	Status     string `json:"status"` // known | fixed
+	// UnlessOutput: for bounded stand-ins - the finding does not cover a run whose output matches
+	UnlessOutput string `json:"unless_output,omitempty"`
 	Commit     string `json:"commit,omitempty"`
 }
 
@@ -501,7 +503,16 @@ func runProp(prop string) int {
 		if status == "fail" {
 			boundedViol++
 			rp := writeReplayFile(prop, "bounded."+b.Name, "bounded stand-in "+b.Name+" failed (bound: "+b.Bound+")\n\n"+out)
-			if kf := matchKnown(known, prop, "bounded."+b.Name); kf != nil {
+			// a recorded finding covers a failing stand-in only if it is still open (a fixed entry
+			// suppresses nothing) and the output carries none of the marks the entry excludes
+			// (so that a different failure of the same stand-in is still reported)
+			kf := matchKnown(known, prop, "bounded."+b.Name)
+			if kf != nil && kf.Status != "fixed" && kf.UnlessOutput != "" {
+				if re, err := regexp.Compile(kf.UnlessOutput); err != nil || re.MatchString(out) {
+					kf = nil
+				}
+			}
+			if kf != nil && kf.Status != "fixed" {
 				fmt.Printf("KNOWN-FINDING: property=%s %s\n", prop, kf.What)
 				boundedViol--
 			} else {
